@@ -276,6 +276,7 @@ func execCase(c *core.Ctx, env *execEnv, fo *forest, s execStream, idx int) {
 	}
 	geo := locate(packed, Lt)
 	c.Event("exec.marker-at."+geo.String(), 1)
+	c.Event("exec.aligned."+alignedClass(L), 1)
 	laterMarker := bytes.Contains(packed[Lt+len(refMarker):], []byte(refMarker))
 	packed = nil
 
